@@ -102,6 +102,11 @@ pub(crate) fn append(mut args: ArgumentResult, visitor: &mut Visitor) -> SassRes
     args.max_args(3)?;
     let (mut list, sep, brackets) = match args.get_err(0, "list")? {
         Value::List(v, sep, b) => (v, sep, b),
+        // a map is the list of its key/value pairs, as in `join` and `set-nth`
+        Value::Map(m) => {
+            let sep = m.separator();
+            (m.as_list(), sep, Brackets::None)
+        }
         v => (vec![v], ListSeparator::Undecided, Brackets::None),
     };
     let val = args.get_err(1, "val")?;
